@@ -15,16 +15,25 @@
        map gives for imaginary time, for every iteration count; Hermiticity and imaginary dt enter only through this
        contract), MPS.orthonormalize returns right-isometric tensors.  Exact identities in every commutative ring with
        conjugation; "up to rounding" is measured by prop(), not proved.
-     * the mixed-canonical identities behind it (norm, one-site / two-site / zero-site energy), the return value, the QR
+     * C08_tdvp2_conserves: the whole two-site run (any L >= 2, any number of steps, any bond profile), relative to the
+       contracts of the calls the run issues (Proofs/Sweeps2Run.v: tdvp2_call_ok): the one-site and the merged two-site
+       local solver preserve <x|x> and <x|H_eff x>; every split_mps_tensor call is EXACT (tol = 0): the tensor that was split
+       factors entrywise through the two answers (merging undoes the split, C03_merge_split_id) and the factor that did not
+       receive the singular values is an isometry ('right': A[i] left-isometric, 'left': A[i+1] right-isometric;
+       C08_split_contract_spec); MPS.orthonormalize returns right-isometric tensors.  Induction over the two-site schedule
+       with the invariant "sites < i left-isometric, sites > i+1 right-isometric, BL / BR the blocks of those sites"
+       (Proofs/Sweeps2Inv.v: Z2), entered with the centre on the left site of the pair (left-to-right sweep, rightmost pair)
+       or on its right site (right-to-left sweep, after the backward one-site step).
+     * the mixed-canonical identities behind them (norm, one-site / two-site / zero-site energy), the return value, the QR
        shape bound, and per-step conservation for one-site and zero-site steps.
-   PARTIAL: the two-site integrator is covered per local step only (C08_two_site_energy_partial + C08_local_step_conserves:
-   the induction over the two-site sweep, which needs the SVD-split contract, is not mechanised); that the bond
-   dimensions never increase is proved per QR call (C08_qr_never_increases_bond_partial), not along a whole run; H is an
+   PARTIAL: that the bond dimensions never increase is proved per QR call (C08_qr_never_increases_bond_partial), not along a
+   whole run; a split with tol > 0 (truncation) is outside the theorem (the property text asks for zero tolerance); H is an
    argument of the model that no function returns or updates (the plugin compares the bytes of H before and after). *)
 From Coq Require Import ZArith QArith Qcanon List Bool Lia.
 From PT Require Import Base.Scalar Base.Field Base.BigSum Base.Mx Model.Tensor Model.Operation Model.Sweeps
-  Proofs.OperationLocal Proofs.OperationUniform Proofs.OperationTwoSite
-  Proofs.SweepsSched Proofs.SweepsCanon Proofs.SweepsLocal Proofs.SweepsGauge Proofs.SweepsRun Proofs.SweepsCheck Proofs.SweepsExample.
+  Proofs.OperationEntries Proofs.OperationLocal Proofs.OperationUniform Proofs.OperationTwoSite
+  Proofs.SweepsSched Proofs.SweepsCanon Proofs.SweepsLocal Proofs.SweepsGauge Proofs.SweepsRun Proofs.SweepsCheck Proofs.SweepsExample
+  Proofs.Sweeps2Inv Proofs.Sweeps2Run Proofs.Sweeps2Check Proofs.Sweeps2Example.
 Import ListNotations.
 
 (* <psi|psi> = <A_i|A_i> in mixed-canonical form (sites before i left-isometric, after i right-isometric) *)
@@ -133,6 +142,31 @@ Theorem C08_tdvp1_conserves : forall (R : cring) orth qr kexp kexp0 (H : mpo R) 
 Proof. exact tdvp1_run. Qed.
 Print Assumptions C08_tdvp1_conserves.
 
+(* WHOLE RUN, two-site (tol_split = 0).  [ttr2_ok ... (rev tr)]: every call recorded in the emitted trace tr meets its contract
+   (Proofs/Sweeps2Run.v: tdvp2_call_ok — kexp_ok d for the one-site solver calls KH, kexp_ok (d*d) with the merged MPO tensor
+   for the two-site calls KH2, split_ok for the split_mps_tensor calls SPLITL / SPLITR). *)
+Theorem C08_split_contract_spec : forall (R : cring) d left (Am A0 A1 : site R) q,
+  split_ok d left Am (A0, A1, q) <->
+  (forall Dl Dr, site_ok (d * d) Dl Dr Am ->
+     exists k, site_ok d Dl k A0 /\ site_ok d k Dr A1 /\
+       (forall s t a e, (s < length A0)%nat -> (t < d)%nat -> (a < Dl)%nat -> (e < Dr)%nat ->
+          get (sel Am (s * d + t)) a e = sumn k (fun j => kmul R (get (sel A0 s) a j) (get (sel A1 t) j e))) /\
+       (if left then right_iso A1 else left_iso A0)).
+Proof. exact split_ok_spec. Qed.
+Print Assumptions C08_split_contract_spec.
+
+Theorem C08_tdvp2_conserves : forall (R : cring) orth split kexp (H : mpo R) psi dt hdt n d DsW Ds0 A qD nrm tr,
+  tdvp_twosite orth split kexp H psi dt hdt n = Some (A, qD, nrm, tr) ->
+  mpo_shapeb d DsW (o_A H) = true -> mps_shapeb d Ds0 (m_A (fst (orth psi))) = true ->
+  Forall right_iso (m_A (fst (orth psi))) ->
+  ttr2_ok split kexp (o_A H) dt hdt d (rev tr) ->
+  let L := length (o_A H) in
+  (2 <= L)%nat /\ nrm = snd (orth psi) /\
+  dnorm2 d L A = k1 R /\
+  denergy d L A (o_A H) = denergy d L (m_A (fst (orth psi))) (o_A H).
+Proof. exact tdvp2_run. Qed.
+Print Assumptions C08_tdvp2_conserves.
+
 (* ---------------- non-vacuity ---------------- *)
 (* mixed-canonical identities on a Gaussian-integer instance: left part / right part isometric, complex centre tensor *)
 Definition gm8 := @mkmx GIring.
@@ -170,3 +204,24 @@ Theorem C08_example_contracts_hold : forall A qD nrm tr,
   tdvp_singlesite ex_orth ex_qr kexp_id kexp0_id exH exPsi exdt exhdt 2 = Some (A, qD, nrm, tr) -> qrs_okb ex_qr (rev tr) = true ->
   ttr_ok ex_qr kexp_id kexp0_id (o_A exH) exdt exhdt 2 (rev tr).
 Proof. intros A qD nrm tr _ H. apply ttr_ok_id. exact H. Qed.
+
+(* the two-site whole-run theorem on the rational instance of Proofs/Sweeps2Example.v (L = 3, H = ZIZ + ZXI + XZI, bond
+   dimensions 1-2-2-1, two steps, exact rational split oracle): the run succeeds, every hypothesis holds (split contracts of
+   all 6 split calls among the 22 recorded calls checked by the boolean version of Proofs/Sweeps2Check.v; the identity solver
+   meets kexp_ok), the returned tensors differ from the input (the gauge moved), and the conclusion is a non-trivial equality
+   (energy 208201/390625) *)
+Example C08_tdvp2_conserves_nonvacuous :
+  match tdvp_twosite ex_orth ex3_split kexp_id ex3H ex3Psi exdt exhdt 2 with
+  | Some (A, qD, nrm, tr) =>
+      mpo_shapeb 2 [1; 2; 2; 1]%nat (o_A ex3H) && mps_shapeb 2 [1; 2; 2; 1]%nat (m_A (fst (ex_orth ex3Psi)))
+      && forallb right_isob (m_A (fst (ex_orth ex3Psi))) && splits_okb ex3_split 2 (rev tr) && Nat.eqb (length tr) 22
+      && Nat.eqb (length (filter (fun t => match c_kind (t_call t) with SPLITL | SPLITR => true | _ => false end) tr)) 6
+      && keqb CQ (dnorm2 2 3 A) (k1 CQ) && keqb CQ (denergy 2 3 A (o_A ex3H)) (denergy 2 3 (m_A ex3Psi) (o_A ex3H))
+      && negb (keqb CQ (denergy 2 3 A (o_A ex3H)) (k0 CQ)) && negb (list_eqb (fun a b => list_eqb mxeqb a b) A (m_A ex3Psi))
+  | None => false
+  end = true.
+Proof. vm_compute. reflexivity. Qed.
+Theorem C08_example2_contracts_hold : forall A qD nrm tr,
+  tdvp_twosite ex_orth ex3_split kexp_id ex3H ex3Psi exdt exhdt 2 = Some (A, qD, nrm, tr) -> splits_okb ex3_split 2 (rev tr) = true ->
+  ttr2_ok ex3_split kexp_id (o_A ex3H) exdt exhdt 2 (rev tr).
+Proof. intros A qD nrm tr _ H. apply ttr2_ok_id. exact H. Qed.
